@@ -3,16 +3,18 @@
 What it does
 ------------
 A *program* is a list of zero-argument callables, one per thread.  Every
-execution runs them on FRESH real threads (``threading.Thread``), but
-serialised by a per-thread semaphore baton: exactly one thread runs at a time
+execution runs them on real OS threads -- brand-new ``threading.Thread``s with
+``fresh_threads=True`` (used for every replay), otherwise long-lived pooled
+threads that run one fresh body each per execution (thread creation costs
+milliseconds here and the bodies keep no thread-local state) -- serialised by a per-thread semaphore baton: exactly one thread runs at a time
 and it gives the baton away only at a *scheduling point*.  Scheduling points
 are placed
 
 * before every bytecode of a *watched* frame (``watch(code, globals)`` says
-  which frames; the check watches all functions of the module under test) whose
-  opcode is in ``POINT_OPS`` (global / name / closure-cell loads and stores and
-  attribute / subscript stores) -- or before EVERY bytecode with
-  ``every_opcode=True``.  This uses ``sys.settrace`` per thread with
+  which frames; the check watches all functions of the module under test) that
+  the ``Points`` policy selects: the bytecodes touching shared mutable state
+  (mode 'shared'), every global access (mode 'globals') or every bytecode
+  (mode 'every').  This uses ``sys.settrace`` per thread with
   ``frame.f_trace_opcodes = True`` on watched frames only; the 'opcode' event
   is delivered before the instruction executes, so the thread is parked with
   the instruction still pending;
@@ -52,15 +54,6 @@ _REAL_ALLOCATE = _thread.allocate_lock
 _REAL_LOCK = threading.Lock
 _REAL_RLOCK = threading.RLock
 REAL_LOCK_TYPES = (type(_REAL_ALLOCATE()), type(_REAL_RLOCK()))
-
-POINT_OPS = frozenset({
-    "LOAD_GLOBAL", "STORE_GLOBAL", "DELETE_GLOBAL",
-    "LOAD_NAME", "STORE_NAME", "DELETE_NAME",
-    "LOAD_DEREF", "STORE_DEREF", "DELETE_DEREF", "LOAD_CLASSDEREF", "LOAD_FROM_DICT_OR_DEREF",
-    "LOAD_FROM_DICT_OR_GLOBALS",
-    "STORE_ATTR", "DELETE_ATTR", "STORE_SUBSCR", "DELETE_SUBSCR",
-})
-_SKIP_ALWAYS = frozenset({"RESUME", "CACHE", "NOP", "EXTENDED_ARG"})
 
 
 class SchedError(Exception):
@@ -209,33 +202,102 @@ def load_instrumented(modname):
     return mod, replaced
 
 
-# ------------------------------------------------------------------ point tables
+# ------------------------------------------------------------------ scheduling-point policy
 
-_TABLES = {}
+GLOBAL_OPS = frozenset({"LOAD_GLOBAL", "STORE_GLOBAL", "DELETE_GLOBAL", "LOAD_NAME", "STORE_NAME",
+                        "DELETE_NAME", "LOAD_FROM_DICT_OR_GLOBALS"})
+GLOBAL_WRITES = frozenset({"STORE_GLOBAL", "DELETE_GLOBAL", "STORE_NAME", "DELETE_NAME"})
+DEREF_OPS = frozenset({"LOAD_DEREF", "STORE_DEREF", "DELETE_DEREF", "LOAD_CLASSDEREF", "LOAD_FROM_DICT_OR_DEREF"})
+ATTR_WRITES = frozenset({"STORE_ATTR", "DELETE_ATTR"})
+SUBSCR_WRITES = frozenset({"STORE_SUBSCR", "DELETE_SUBSCR", "STORE_SLICE"})
+SUBSCR_READS = frozenset({"BINARY_SUBSCR", "BINARY_SLICE"})
+_SKIP_ALWAYS = frozenset({"RESUME", "CACHE", "NOP", "EXTENDED_ARG"})
 
 
-def point_table(code, every_opcode=False):
-    """{bytecode offset: (opname, argrepr)} for the scheduling points of a code object."""
-    key = (code, every_opcode)
-    t = _TABLES.get(key)
-    if t is None:
-        t = {}
-        for ins in dis.get_instructions(code):
-            if ins.opname in _SKIP_ALWAYS:
-                continue
-            if every_opcode or ins.opname in POINT_OPS:
-                t[ins.offset] = (ins.opname, str(ins.argval) if ins.opname in POINT_OPS else "")
-        _TABLES[key] = t
-    return t
+class Points:
+    """Which bytecodes of watched frames are preceded by a scheduling point.
+
+    mode 'shared'  (the default): the bytecodes that touch shared MUTABLE state --
+        * global/name loads, stores and deletes of a name in `shared_names`
+          (= every global some analysed function stores or deletes, plus every global
+          of the module under test currently bound to an instrumented lock),
+        * every closure-cell access, every attribute / subscript store or delete,
+          and attribute / subscript LOADS too as soon as any analysed function
+          contains an attribute / subscript store.
+        Loads of globals that no analysed function ever rebinds (`hy`, `len`, ...)
+        commute with every other operation and are not points; that they are in fact
+        never rebound is re-checked by the caller after every execution.
+        The policy is computed from `codes` (the watched code objects a warm-up run
+        entered); a watched frame running any other code object is a hard error.
+    mode 'globals': every global/name access + the stores above (no analysis needed).
+    mode 'every'  : every bytecode.
+    (acquire/release of instrumented locks are scheduling points in every mode.)
+    """
+
+    def __init__(self, mode="shared", codes=(), lock_names=()):
+        assert mode in ("shared", "globals", "every")
+        self.mode = mode
+        self.codes = set(codes)
+        written = set()
+        self.attr_store = self.subscr_store = False
+        for code in self.codes:
+            for ins in dis.get_instructions(code):
+                if ins.opname in GLOBAL_WRITES:
+                    written.add(ins.argval)
+                elif ins.opname in ATTR_WRITES:
+                    self.attr_store = True
+                elif ins.opname in SUBSCR_WRITES:
+                    self.subscr_store = True
+        self.written = frozenset(written)
+        self.shared_names = frozenset(written) | frozenset(lock_names)
+        self._tables = {}
+
+    def describe(self):
+        return {"mode": self.mode, "shared_names": sorted(self.shared_names),
+                "attr_loads_are_points": self.attr_store, "subscr_loads_are_points": self.subscr_store,
+                "analysed_code_objects": sorted(c.co_name for c in self.codes)}
+
+    def _is_point(self, ins):
+        op = ins.opname
+        if op in _SKIP_ALWAYS:
+            return False
+        if self.mode == "every":
+            return True
+        if op in GLOBAL_OPS:
+            return self.mode == "globals" or ins.argval in self.shared_names
+        if op in DEREF_OPS or op in ATTR_WRITES or op in SUBSCR_WRITES:
+            return True
+        if self.mode == "shared":
+            if op == "LOAD_ATTR":
+                return self.attr_store
+            if op in SUBSCR_READS:
+                return self.subscr_store
+        return False
+
+    def table(self, code):
+        """{bytecode offset: (opname, argument)} for the scheduling points of `code`."""
+        t = self._tables.get(code)
+        if t is None:
+            if self.mode == "shared" and code not in self.codes:
+                raise SchedError(f"watched code object {code.co_name!r} ({code.co_filename}:{code.co_firstlineno}) "
+                                 "was not in the analysed set the 'shared' point policy was computed from")
+            t = {}
+            for ins in dis.get_instructions(code):
+                if self._is_point(ins):
+                    arg = ins.argval if (ins.opname in GLOBAL_OPS or ins.opname in DEREF_OPS
+                                         or ins.opname in ATTR_WRITES or ins.opname == "LOAD_ATTR") else ""
+                    t[ins.offset] = (ins.opname, str(arg))
+            self._tables[code] = t
+        return t
 
 
 # ------------------------------------------------------------------ strategies
 
 class PrefixStrategy:
-    """Replay `prefix` (list of thread ids), then keep running the current
-    thread (lowest enabled thread if it cannot continue).  `expect` = the
-    (step, digest) the search recorded for the state at which the last prefix
-    choice is taken; a different digest on replay is a divergence."""
+    """Replay `prefix` (thread ids), then keep running the current thread (the
+    lowest enabled thread if it cannot continue).  `expect` = (step, digest) that the
+    search recorded for the state in which the LAST prefix choice is taken; a different
+    digest on replay is a divergence."""
 
     def __init__(self, prefix=(), expect=None):
         self.prefix = tuple(prefix)
@@ -255,6 +317,8 @@ class PrefixStrategy:
 
 
 class CallbackStrategy:
+    """fn(ex, step, cur, enabled) -> thread id (a forced schedule computed on the fly)."""
+
     def __init__(self, fn):
         self.fn = fn
 
@@ -265,27 +329,148 @@ class CallbackStrategy:
         return t
 
 
+# ------------------------------------------------------------------ OS threads
+
+def _arm_opcode_tracing():
+    """On CPython 3.12 per-opcode trace events are only switched on by a
+    sys.settrace() call made AFTER some frame has had f_trace_opcodes set to True
+    (an interpreter-wide flag).  Set that flag before any traced thread starts,
+    otherwise the first execution silently gets no 'opcode' events."""
+    if not _ARMED:
+        gen = (x for x in ())           # a frame that is not running
+        gen.gi_frame.f_trace_opcodes = True
+        _ARMED.append(gen)
+
+
+_ARMED = []
+
+
+class _Worker:
+    """A long-lived OS thread that runs one job (a thread body of one execution) at a
+    time.  Its trace function is installed once and dispatches to the tracer of
+    the current job, so tracing is never switched off and on between executions
+    (on 3.12 that re-instruments every code object and dominates the run time)."""
+
+    def __init__(self, ix):
+        self.ix = ix
+        self.job = None
+        self.tracer = None
+        self.job_sem = _REAL_ALLOCATE()
+        self.job_sem.acquire()
+        self.done_sem = _REAL_ALLOCATE()
+        self.done_sem.acquire()
+        self._disp = self._dispatch
+        _arm_opcode_tracing()
+        self.thread = threading.Thread(target=self._loop, daemon=True, name=f"sched-worker-{ix}")
+        self.thread.start()
+
+    def _dispatch(self, frame, event, arg):
+        tr = self.tracer
+        if tr is None:
+            return None
+        return tr(frame, event, arg)
+
+    def _loop(self):
+        while True:
+            if sys.gettrace() is not self._disp:       # an exception leaving a trace function unsets it
+                sys.settrace(self._disp)
+            self.job_sem.acquire()
+            job = self.job
+            if job is None:
+                sys.settrace(None)
+                return
+            try:
+                job(self)
+            finally:
+                self.tracer = None
+                self.job = None
+                self.done_sem.release()
+
+    def submit(self, job):
+        self.job = job
+        self.job_sem.release()
+
+    def wait(self, timeout):
+        return self.done_sem.acquire(timeout=timeout)
+
+    def stop(self):
+        self.job = None
+        self.job_sem.release()
+
+
+class _FreshThread:
+    """One job on a brand-new OS thread with its own sys.settrace."""
+
+    def __init__(self, ix):
+        self.ix = ix
+        self.thread = None
+
+    def set_tracer(self, tr):
+        sys.settrace(tr)
+
+    def submit(self, job):
+        def run():
+            try:
+                job(self)
+            finally:
+                sys.settrace(None)
+        _arm_opcode_tracing()
+        self.thread = threading.Thread(target=run, daemon=True, name=f"sched-fresh-{self.ix}")
+        self.thread.start()
+
+    def wait(self, timeout):
+        self.thread.join(timeout)
+        return not self.thread.is_alive()
+
+
+def _pool_set_tracer(self, tr):
+    self.tracer = tr
+
+
+_Worker.set_tracer = _pool_set_tracer
+
+_POOL = []
+
+
+def _pool(n):
+    while len(_POOL) < n:
+        _POOL.append(_Worker(len(_POOL)))
+    return _POOL[:n]
+
+
+def discard_pool():
+    for w in _POOL:
+        if w.job is None:
+            w.stop()
+    del _POOL[:]
+
+
 # ------------------------------------------------------------------ one execution
 
 class Execution:
     """Run one schedule.  After run():
       choices      list of thread ids, one per scheduling decision
-      trace        per decision: (chosen, enabled tuple, cur or None [cur = the running
-                   thread if it could have continued], configuration, pending label of chosen)
+      trace        per decision: (chosen, enabled tuple, cur [the running thread if it could
+                   have continued, else None], configuration, pending operation of chosen)
       preemptions  number of decisions with cur not None and chosen != cur
       results      per thread ('ok', value) | ('exc', exception) | None (aborted)
-      deadlock     None or [(tid, pending label), ...]
-      configs      the configurations seen (list, one per decision, + the final one)
+      deadlock     None or [(tid, pending operation), ...]
+      final_config configuration after the last step
+      codes_seen   the watched code objects that were entered
+    A configuration is (per-thread pc, shared(), owner of every instrumented lock used);
+    a pc is (number of watched frames entered so far, bytecode offset of the pending
+    instruction) or (…, 'acq'|'rel', lock number) or 'done'.
     """
 
-    def __init__(self, bodies, watch, strategy, shared=lambda: None, every_opcode=False,
-                 watchdog=20.0, max_steps=20000):
+    def __init__(self, bodies, watch, strategy, shared=lambda: None, points=None,
+                 fresh_threads=False, watchdog=30.0, max_steps=20000):
         self.bodies = list(bodies)
         self.T = len(self.bodies)
         self.watch = watch
         self.strategy = strategy
         self.shared = shared
-        self.every_opcode = every_opcode
+        self.points = points if points is not None else Points("globals")
+        self.fresh_threads = fresh_threads
         self.watchdog = watchdog
         self.max_steps = max_steps
         T = self.T
@@ -294,15 +479,18 @@ class Execution:
             g.acquire()
         self.main_sem = _REAL_ALLOCATE()
         self.main_sem.acquire()
-        self.pending = [("start",)] * T        # label of the operation each thread will do next
+        self.pending = [("start",)] * T        # the operation each thread will do next
         self.where = ["start"] * T             # per-thread pc for the configuration
         self.finished = [False] * T
         self.exited = [False] * T
         self.ncalls = [0] * T
+        self.npoints = [0] * T
+        self.nopcode_events = [0] * T
         self.results = [None] * T
         self.locks = []                        # instrumented locks in order of first use
         self._lock_ix = {}
         self._ident2tid = {}
+        self.codes_seen = set()
         self.priming = True
         self.aborted = False
         self.error = None
@@ -388,6 +576,7 @@ class Execution:
             raise _Abort()
         self.pending[me] = label
         self.where[me] = where
+        self.npoints[me] += 1
         if self.priming:
             self.main_sem.release()
             self._park(me)
@@ -406,15 +595,27 @@ class Execution:
         lid = self.lock_id(lock)
         self._point(me, (kind, lid, blocking), (self.ncalls[me], kind, lid))
 
+    def _fail(self, me, err):
+        """Hard error detected inside a thread."""
+        if self.error is None:
+            self.error = err
+        self._abort(me)
+        self.main_sem.release()
+        raise _Abort()
+
     # -- thread side -----------------------------------------------------
-    def _thread_main(self, me):
+    def _thread_main(self, me, host):
         self._ident2tid[_thread.get_ident()] = me
-        every = self.every_opcode
+        table = self.points.table
         watch = self.watch
 
         def local(frame, event, arg):
             if event == "opcode":
-                lab = point_table(frame.f_code, every).get(frame.f_lasti)
+                self.nopcode_events[me] += 1
+                try:
+                    lab = table(frame.f_code).get(frame.f_lasti)
+                except SchedError as e:
+                    self._fail(me, e)
                 if lab is not None:
                     self._point(me, ("op", lab[0], lab[1]), (self.ncalls[me], frame.f_lasti))
             return local
@@ -424,12 +625,13 @@ class Execution:
                 frame.f_trace_opcodes = True
                 frame.f_trace_lines = False
                 self.ncalls[me] += 1
+                self.codes_seen.add(frame.f_code)
                 return local
             return None
 
         try:
             self._park(me)                      # wait for the priming turn
-            sys.settrace(glob)
+            host.set_tracer(glob)
             try:
                 r = ("ok", self.bodies[me]())
             except _Abort:
@@ -437,7 +639,7 @@ class Execution:
             except BaseException as e:          # the body's own failure is an observation
                 r = ("exc", e)
             finally:
-                sys.settrace(None)
+                host.set_tracer(None)
             self.results[me] = r
         except _Abort:
             self.exited[me] = True
@@ -474,11 +676,10 @@ class Execution:
         if _ACTIVE[0] is not None:
             raise SchedError("nested Execution")
         _ACTIVE[0] = self
-        threads = [threading.Thread(target=self._thread_main, args=(t,), daemon=True, name=f"sched-{t}")
-                   for t in range(self.T)]
+        hosts = [_FreshThread(t) for t in range(self.T)] if self.fresh_threads else _pool(self.T)
         try:
-            for th in threads:
-                th.start()
+            for t, h in enumerate(hosts):
+                h.submit(lambda host, t=t: self._thread_main(t, host))
             # priming: every thread runs alone, in index order, up to its first scheduling
             # point (thread-local prelude; no choice, not counted as a step)
             ok = True
@@ -493,19 +694,23 @@ class Execution:
                 if first is not None:
                     self.go[first].release()
                     self._wait_main()
-            for th in threads:
-                th.join(timeout=self.watchdog)
-                if th.is_alive():
+            for h in hosts:
+                if not h.wait(self.watchdog):
                     self.hang = True
         finally:
             for l in self.locks:
                 l._force_reset()
             _ACTIVE[0] = None
+            if self.hang and not self.fresh_threads:
+                discard_pool()
         if self.hang:
             raise SchedError("a thread did not return to the scheduler within the watchdog time "
                              "(uncontrolled blocking call?) pending=" + repr(self.pending))
         if self.error is not None:
             raise self.error
+        for t in range(self.T):
+            if self.ncalls[t] and not self.nopcode_events[t]:
+                raise SchedError(f"thread {t} entered a watched frame but received no 'opcode' trace event")
         if self.final_config is None:
             self.final_config = self.config()
         return self
@@ -526,22 +731,23 @@ class Execution:
 
 # ------------------------------------------------------------------ the search
 
-def explore(make_bodies, watch, bound, on_execution, shared=lambda: None, every_opcode=False,
-            reset=lambda: None, limit=None, part=None):
+def explore(make_bodies, watch, bound, on_execution, shared=lambda: None, points=None,
+            reset=lambda: None, part=None, fresh_threads=False):
     """Depth-first search over all schedules with <= `bound` preemptions
     (None: all schedules).  `make_bodies()` gives fresh thread bodies for every
     execution, `reset()` is called before each one.  `on_execution(ex)` sees every
     complete execution.  `part=(k, K)`: only the k-th of K slices of the root's
-    children (the root execution itself belongs to slice 0) -- for sharding an
-    unbounded search.  Returns the number of executions."""
+    children (the root execution itself belongs to slice 0) -- for sharding a
+    search.  Returns the number of executions reported."""
     stack = [((), 0, None)]
     n = 0
     root = True
     while stack:
         prefix, pre, expect = stack.pop()
         reset()
-        ex = Execution(make_bodies(), watch, PrefixStrategy(prefix, expect), shared, every_opcode).run()
-        if ex.choices[:len(prefix)] != list(prefix):
+        ex = Execution(make_bodies(), watch, PrefixStrategy(prefix, expect), shared, points,
+                       fresh_threads=fresh_threads).run()
+        if tuple(ex.choices[:len(prefix)]) != tuple(prefix):
             raise SchedError("replay did not follow its prefix")
         if ex.preemptions != pre:
             raise SchedError(f"preemption accounting differs: predicted {pre}, executed {ex.preemptions}")
@@ -570,15 +776,16 @@ def explore(make_bodies, watch, bound, on_execution, shared=lambda: None, every_
             n += 1
             on_execution(ex)
         stack.extend(reversed(kids))
-        if limit is not None and n >= limit:
-            break
     return n
 
 
-def replay(make_bodies, watch, choices, shared=lambda: None, every_opcode=False, reset=lambda: None):
-    """Run exactly the schedule `choices` (must be a complete schedule or a prefix)."""
+def replay(make_bodies, watch, choices, shared=lambda: None, points=None, reset=lambda: None,
+           fresh_threads=True):
+    """Run exactly the schedule `choices` (a complete schedule or a prefix), by
+    default on brand-new OS threads."""
     reset()
-    return Execution(make_bodies(), watch, PrefixStrategy(choices), shared, every_opcode).run()
+    return Execution(make_bodies(), watch, PrefixStrategy(choices), shared, points,
+                     fresh_threads=fresh_threads).run()
 
 
 # ------------------------------------------------------------------ atomic-callee audit
